@@ -226,4 +226,18 @@ CLAIMS = {
         "technique": "feature extraction and comparison of sibling implementations over MIR; variant-map extraction; "
                      "abstract evaluation of the close-delimiter logic",
     },
+    "C08": {
+        "text": "Claimed (structural clauses): every option field is read only inside parse_token and only while lexing a "
+                "token whose first byte is in the option's documented class (all 256 first bytes evaluated with symbolic "
+                "options), which makes it impossible for an option to change tokens it does not name; for 19 (first-byte "
+                "class, option value) cases the set of token kinds parse_token can produce changes exactly as documented "
+                "(brackets, string/char syntax, the three keyword spellings, #%, leading digits, nil, t); a Parser built "
+                "inside the crate is checked with expect_end before its result is used; ' ` , ,@ map to their four symbols "
+                "and both expansion sites build a two-element list; closing delimiters are compared with the opener's "
+                "partner in all 40 abstract cases; number tokens are returned only after inspecting the following byte. "
+                "Pairwise equality of results between option sets is not decided.",
+        "note": _TB + "The documented first-byte classes in tables/option_classes.json.",
+        "technique": "conditional constant propagation of parse_token over first bytes and option values; dominance / "
+                     "call-site audits",
+    },
 }
